@@ -47,6 +47,9 @@ package httpgen
 //@   at-call bindQueryParams requires after_path: lastNil("validateHeaders") && count("bindPathParams") > old(count("bindPathParams")) && lastNil("bindPathParams")
 //@   at-call bindDataBasedOnContentType requires headers_first: count("validateHeaders") > old(count("validateHeaders")) && lastNil("validateHeaders")
 //@   at-call bindDataBasedOnContentType requires url_survives_body: count("bindPathParams") == old(count("bindPathParams")) && count("bindQueryParams") == old(count("bindQueryParams"))
+// the decoder reads the request that was received: the same *http.Request with the body the server handed to the route, not a
+// wrapped, limited or replaced reader (a cut-off binary body can still parse - C11)
+//@   at-call bindDataBasedOnContentType requires body_as_received: arg0 == r && arg0.Body == old(r.Body)
 //@   at-call bindDataBasedOnContentType requires body_verb_only: httpMethod == "POST" || httpMethod == "PUT" || httpMethod == "PATCH"
 //@   at-call bindDataBasedOnContentType requires url_bound_ok: (count("bindPathParams") > old(count("bindPathParams")) ==> lastNil("bindPathParams")) && (count("bindQueryParams") > old(count("bindQueryParams")) ==> lastNil("bindQueryParams"))
 //@   at-call ServeHTTP requires headers_ok: count("validateHeaders") > old(count("validateHeaders")) && lastNil("validateHeaders")
